@@ -208,49 +208,45 @@ def run(facts, res):
         for n, els, ln, bi in arr:
             tags = []
             for e in els:
-                if contains_call(e, "get_parent"):
-                    tags.append("prev")
-                elif contains_call(e, "digest"):
-                    tags.append("rev.digest")
-                elif contains_call(e, "clone") and not contains_call(e, "to_string"):
-                    tags.append("uuid")
-                else:
-                    tags.append(None)
+                from . import c03 as _c03
+                tg = _c03._writer_tag(e)
+                tags.append(tg if tg != "rev" else None)
             wpos[n] = tags
         # reader: RevisionTree::add(r, prev, true) under len()==n, r = Revision::new(idx, digest, parent)
         rpos = {}
         staged_ok = True
         n_add = 0
-        for bi, t in rp.calls():
-            if t.callee is None or t.callee.target() != "revisiontree::RevisionTree::add":
-                continue
-            n_add += 1
+        from ..common import inlined_sites
+
+        def arity_of(lits):
             ar = None
-            for l in lits_of(rp, bi, facts):
+            for l in lits:
                 if l.kind == "cmp" and l.term[1] == "Eq" and l.truth:
                     for x in (l.term[2], l.term[3]):
                         if x[0] == "const" and x[1] == "int":
                             ar = x[2]
-            sg = arg_term(rp, t, 3, 6)
+            return ar
+        # sites are read through private helpers (`replay_staged_revision(uuid, r, prev)`): arguments in replay_stage's frame
+        for s_ in inlined_sites(facts, rp, lambda t: t.callee.target() == "revisiontree::RevisionTree::add"):
+            n_add += 1
+            ar = arity_of(s_.lits)
+            sg = s_.args[3] if len(s_.args) > 3 else ("cut",)
+            while sg[0] == "var":
+                sg = sg[3]
             if not (sg[0] == "const" and sg[1] == "bool" and sg[2] is True):
                 staged_ok = False
-            rv = peel(arg_term(rp, t, 1, 30))
+            rv = peel(s_.args[1])
             if ar is not None and rv[0] == "call" and callee_name(rv) == "new" and len(rv[2]) >= 3:
                 pos = rpos.setdefault(ar, {})
                 pos.setdefault("rev.digest", set()).update(tables.index_consts(rv[2][1]))
                 if ar == 3:
-                    pos.setdefault("prev", set()).update(tables.index_consts(rv[2][2]) | tables.index_consts(arg_term(rp, t, 2, 30)))
-        for bi, t in rp.calls():
-            if t.callee is not None and t.callee.name in ("contains_key", "get_mut", "insert") and t.args and \
-                    any(x[0] == "field" and x[2] == "documents" for x in walk(arg_term(rp, t, 0, 12))):
-                ar = None
-                for l in lits_of(rp, bi, facts):
-                    if l.kind == "cmp" and l.term[1] == "Eq" and l.truth:
-                        for x in (l.term[2], l.term[3]):
-                            if x[0] == "const" and x[1] == "int":
-                                ar = x[2]
-                if ar is not None:
-                    rpos.setdefault(ar, {}).setdefault("uuid", set()).update(tables.index_consts(arg_term(rp, t, 1, 30)))
+                    pos.setdefault("prev", set()).update(tables.index_consts(rv[2][2]) | tables.index_consts(s_.args[2]))
+        for s_ in inlined_sites(facts, rp, lambda t: t.callee.name in ("contains_key", "get_mut", "insert") and bool(t.args)):
+            if not any(x[0] == "field" and x[2] == "documents" for x in walk(s_.args[0])):
+                continue
+            ar = arity_of(s_.lits)
+            if ar is not None and len(s_.args) > 1:
+                rpos.setdefault(ar, {}).setdefault("uuid", set()).update(tables.index_consts(s_.args[1]))
         res.instance("G4", "stage record layout written %s / replayed %s; replayed revisions staged: %s (%d add sites)" % (wpos, rpos, staged_ok, n_add), rp.loc())
         res.floor("G4", "RevisionTree::add sites in replay_stage", n_add, 2)
         if not staged_ok:
@@ -264,7 +260,7 @@ def run(facts, res):
         dj = facts.body("melda::Delta::to_json")
         if dj is not None:
             from . import c03
-            dpos = {n: [c03._writer_tag(e) for e in els] for n, els, _, _ in tables.array_literals(dj)}
+            dpos = {n: [c03._writer_tag(e) for e in els] for cb_ in [dj] + facts.closures_of(dj.path) for n, els, _, _ in tables.array_literals(cb_)}
             if dpos != wpos:
                 res.violation("G4", "stage-vs-block-layout", "stage records %s and block records %s use different layouts" % (wpos, dpos), st.loc())
     # G4b: the consumers of record lists (whose order comes from a hash map) insert every record unconditionally:
